@@ -107,11 +107,17 @@ def make_weights(rnd, n, lo=None):
 
 
 def shape2d(rnd, arrs):
+    """scattered points stored in 2-D arrays that are NOT meshgrids: (2, n/2), (n/3, 3), column (n, 1), row (1, n)"""
     n = arrs[0].size
-    if n % 2 == 0 and rnd.random() < 0.4:
+    u = rnd.random()
+    if n % 2 == 0 and u < 0.3:
         return [a.reshape(2, n // 2) for a in arrs]
-    if n % 3 == 0 and rnd.random() < 0.3:
+    if n % 3 == 0 and u < 0.5:
         return [a.reshape(n // 3, 3) for a in arrs]
+    if u < 0.6:
+        return [a.reshape(n, 1) for a in arrs]
+    if u < 0.7:
+        return [a.reshape(1, n) for a in arrs]
     return list(arrs)
 
 
